@@ -114,6 +114,11 @@ func squeeze(code string) string {
 	return strings.Join(lines, "\n")
 }
 
+// measured by the worker (single-threaded): formatted outputs produced, and a sink for the writer-state
+// abstraction (the default-option output text identifies the sequence of writer requests of the program)
+var c06Formatted int64
+var c06Sink func(out string)
+
 func c06Check(src string, all bool) (kind, detail string, accepted bool) {
 	o := parseMode(src, Mode{})
 	if o.Panic != "" || o.Err != nil {
@@ -128,8 +133,12 @@ func c06Check(src string, all bool) (kind, detail string, accepted bool) {
 	if all {
 		core = c06Options(true)
 	}
-	for _, cfg := range core {
+	for ci, cfg := range core {
 		p1 := compileCfg(o.Prog, cfg)
+		c06Formatted += 2
+		if ci == 0 && c06Sink != nil {
+			c06Sink(p1.Code)
+		}
 		if p1.Panic != "" {
 			return "panic", cfg.String() + ": " + p1.Panic, true
 		}
@@ -159,6 +168,7 @@ func c06Check(src string, all bool) (kind, detail string, accepted bool) {
 	var base [2]string
 	for _, cfg := range c06Options(false) {
 		p := compileCfg(o.Prog, cfg)
+		c06Formatted++
 		if p.Panic != "" {
 			return "panic", cfg.String() + ": " + p.Panic, true
 		}
@@ -252,6 +262,12 @@ func c06Run(c *core.Ctx) {
 		c.Violate(core.Violation{Kind: k, Case: fmt.Sprintf("%q", src), Detail: d, Payload: pl, Size: size})
 	}
 	all := c.Thorough()
+	c06Sink = func(out string) {
+		if c.Distinct("formatted_outputs", out) {
+			c.Inc("distinct_formatted_outputs")
+		}
+	}
+	defer func() { c.Count("formatted_outputs_checked", c06Formatted) }()
 	// (1) all token sequences <= n, space and LF layouts
 	n := 4
 	if c.Thorough() {
@@ -470,9 +486,9 @@ func c06Replay(pl json.RawMessage) (string, []core.Violation) {
 func init() {
 	core.Register(&core.PropSpec{
 		ID: "C06", Level: "model_checking",
-		Rule:     "writer state machine driven by the program universe: ALL token sequences <= n (4 quick, 5 thorough) in space and LF layouts; the statement families in every layout with <= k deviations (k=1 quick, 2 thorough) over gaps {LF, none, comment, blank line, blank lines + comment, tab} and dropped semicolons (covers statements starting with ( [ - ++ backtick, brace-less if/else bodies, comments and blank lines in every gap); multi-line backtick and continued string literals alone, next to other statements and nested <= 2 deep in blocks/functions; every expression chain <= depth 2 as statement and initialiser. For every accepted program: (a) each formatted output re-parses and its compact form equals the compact output of the source (same tree incl. literal values and grouping), (b) formatting the formatted output again reproduces it byte for byte — on 7 option sets quick, all 21 thorough; (c) the outputs for all 10 indent units {tab, 0..8 spaces} are identical after stripping leading white space of lines that do not start inside a literal; (d) the with- and without-semicolon outputs are identical after deleting semicolons whose innermost open bracket is a brace or none, and the without-semicolon output has no more of them. states = distinct (program, layout) texts, transitions = formatted outputs checked",
+		Rule:     "writer state machine driven by the program universe: ALL token sequences <= n (4 quick, 5 thorough) in space and LF layouts; the statement families in every layout with <= k deviations (k=1 quick, 2 thorough) over gaps {LF, none, comment, blank line, blank lines + comment, tab} and dropped semicolons (covers statements starting with ( [ - ++ backtick, brace-less if/else bodies, comments and blank lines in every gap); multi-line backtick and continued string literals alone, next to other statements and nested <= 2 deep in blocks/functions; every expression chain <= depth 2 as statement and initialiser. For every accepted program: (a) each formatted output re-parses and its compact form equals the compact output of the source (same tree incl. literal values and grouping), (b) formatting the formatted output again reproduces it byte for byte — on 7 option sets quick, all 21 thorough; (c) the outputs for all 10 indent units {tab, 0..8 spaces} are identical after stripping leading white space of lines that do not start inside a literal; (d) the with- and without-semicolon outputs are identical after deleting semicolons whose innermost open bracket is a brace or none, and the without-semicolon output has no more of them. states = distinct formatted outputs under the default options (each is one path through the writer's deferred-whitespace machine), transitions = formatted outputs produced and checked",
 		Assume:   []string{"(d) uses the independent tokenizer R-tok to find statement-terminating semicolons", "trailing blanks at line ends are ignored when comparing the semicolon variants"},
 		QuickSec: 300, ThorSec: 2400, Run: c06Run, Replay: c06Replay,
-		Evals: "inputs", Nontriv: "accepted_multiline_layouts", States: "inputs", Trans: "inputs",
+		Evals: "inputs", Nontriv: "accepted_multiline_layouts", States: "distinct_formatted_outputs", Trans: "formatted_outputs_checked",
 	})
 }
